@@ -137,6 +137,7 @@ func ruleR08a(c *Check, w *wrapperInfo) {
 		r, ok := in.(*ssa.Return)
 		return ok && !definitelyNonNilReturn(fn, r)
 	}
+	collected := map[string]bool{} // variables the tier errors are appended to (a hand-written error group)
 	for name, calls := range map[string][]ssa.CallInstruction{"local": fs, "remote": rem} {
 		key := "both-tiers-written/" + name + "/" + fname
 		if len(calls) == 0 {
@@ -170,6 +171,9 @@ func ruleR08a(c *Check, w *wrapperInfo) {
 				continue
 			}
 			fwd := errForwarders(cl)
+			for f := range fwd {
+				collectCells(c, f, collected, 0)
+			}
 			isFwd := func(in ssa.Instruction) bool { return fwd[in] }
 			isRet := func(in ssa.Instruction) bool { _, r := in.(*ssa.Return); return r }
 			reach, _ := engine.PathExists(lit, cl, isRet, engine.PathQuery{CutEdge: engine.NilErrEdgesOf(cl), CutInstr: isFwd})
@@ -191,7 +195,7 @@ func ruleR08a(c *Check, w *wrapperInfo) {
 		}
 	}
 	okCollect := false
-	if len(recvs) > 0 {
+	if len(recvs) > 0 || len(collected) > 0 {
 		reach, _ := nilReturnReachable(fn, engine.PathQuery{CutEdge: engine.CutEdgesWhere(func(a engine.Atom) bool {
 			arg, ok := lenArg(a.V)
 			if !ok {
@@ -200,6 +204,9 @@ func ruleR08a(c *Check, w *wrapperInfo) {
 			k, isK := a.Other.(*ssa.Const)
 			if !isK || k.Value == nil || k.Int64() != 0 || !(a.Op == "le" || a.Op == "eq") {
 				return false
+			}
+			if collected[engine.ExprKey(arg)] {
+				return true
 			}
 			back := c.G.Backward([]Node{arg}, inRegion)
 			for _, r := range recvs {
@@ -251,6 +258,40 @@ func ruleR08a(c *Check, w *wrapperInfo) {
 		}
 	}
 	c.Require(okCollect, "R08a", "nil-only-without-errors/"+fname, "`return nil` is dominated by `len(collected errors) == 0` where the errors are received from the goroutines' channel", "Set can return nil although an error was received from one of the tier writers (or the channel is never drained)", c.P.Pos(fn.Pos()))
+}
+
+// collectCells: the forwarder appends the error to a slice variable (directly, or inside the closure it
+// calls): record that variable's name — the function's "no error collected" test is about it.
+func collectCells(c *Check, f ssa.Instruction, out map[string]bool, depth int) {
+	call, ok := f.(*ssa.Call)
+	if !ok || depth > 2 {
+		return
+	}
+	record := func(app *ssa.Call) {
+		for _, ref := range *app.Referrers() {
+			if st, ok := ref.(*ssa.Store); ok && st.Val == ssa.Value(app) {
+				out[engine.ExprKey(st.Addr)] = true
+				// a load of the cell is what len() sees
+				out[strings.TrimPrefix(engine.ExprKey(st.Addr), "*")] = true
+			}
+		}
+		out[engine.ExprKey(app.Call.Args[0])] = true
+	}
+	if b, ok := call.Call.Value.(*ssa.Builtin); ok && b.Name() == "append" {
+		record(call)
+		return
+	}
+	for _, h := range c.G.Callees[call] {
+		for _, bb := range h.Blocks {
+			for _, in := range bb.Instrs {
+				if inner, ok := in.(*ssa.Call); ok {
+					if b, ok := inner.Call.Value.(*ssa.Builtin); ok && b.Name() == "append" {
+						record(inner)
+					}
+				}
+			}
+		}
+	}
 }
 
 func ruleR08b(c *Check, w *wrapperInfo, rule string) {
